@@ -7,6 +7,6 @@ CONSTANTS
   Depth = 0
   GEN = FALSE
   Pre = 0
-  Alpha = "full"
+  Alpha = "gen"
 CONSTRAINT Bound
 INVARIANTS TypeOK PredAllowed C08_StoreLen C06_PosInFile C09_Atomic C09_Clean C05_Read C05_Write C08_WriteLands C08_SeekPointers C08_Truncate C08_Reopen
